@@ -490,6 +490,14 @@ func (s *sim) step(st Step) error {
 		}
 		n2.Labels[corev1.LabelHostname] = n2.Name
 		w.EnvCreate(n2)
+	case "PreTaint": // somebody put a karpenter.sh/disrupted taint with ANOTHER effect (Which) / a value on the node beforehand
+		n := node()
+		eff := corev1.TaintEffect(st.Which)
+		if !w.EnvMutate(n, "PreTaint", func() {
+			n.Spec.Taints = append(n.Spec.Taints, corev1.Taint{Key: v1.DisruptedTaintKey, Effect: eff, Value: "foreign"})
+		}) {
+			s.skip(st.A, "no-node")
+		}
 	case "DeleteClaim":
 		nc := claim()
 		if !w.Get(nc) {
